@@ -180,6 +180,72 @@ def encode(req, res):
     return H.nums_str(H.enc_hover_json(res) if req[0] == 0 else H.enc_sighelp_json(res))
 
 
+# ---- optional request members: what the client adds to a request does not change the declared signature ----
+def _stale_help(a, rng):
+    """the previous answer as a client may hold it after the declaration was edited: same callee, same number of parameters,
+    but other types / modes / documentation"""
+    import copy
+    b = copy.deepcopy(a)
+    for s in b.get("signatures", []):
+        lab = s.get("label", "")
+        s["label"] = lab.replace("int", "stale_t").replace("ref ", "") if rng.random() < 0.5 else lab.replace("(", "(ref zz: int, ", 1).replace(", )", ")")
+        for p in s.get("parameters", []) or []:
+            if isinstance(p.get("label"), str):
+                p["label"] = "ref " + p["label"].replace("int", "stale_t")
+        s["documentation"] = {"kind": "markdown", "value": "stale documentation"}
+    if isinstance(b.get("activeParameter"), int):
+        b["activeParameter"] = b["activeParameter"] + 1
+    return b
+
+
+def context_stage(ctx, exe, docs, res):
+    """re-asks answered signature-help (and hover) requests with the optional members of the LSP request types filled in"""
+    import lspclient
+    import queue
+    rng = ctx.rng
+    picks = []
+    for (text, reqs), answers in zip(docs, res):
+        hits = [(r, a) for r, a in zip(reqs, answers) if isinstance(a, dict) and ("signatures" in a or "contents" in a)]
+        if hits:
+            picks.append((text, rng.sample(hits, min(len(hits), 6))))
+    rng.shuffle(picks)
+    picks = picks[:(120 if ctx.thorough() else 30)]
+    bad, asked = [], 0
+    s = lspclient.Server(exe)
+    try:
+        s.initialize(diagnostics=False)
+        for k, (text, hits) in enumerate(picks):
+            uri = "file:///ctx_%d.spl" % k
+            s.open(uri, text)
+            for (kind, l, col), a in hits:
+                params = {"textDocument": {"uri": uri}, "position": {"line": l, "character": col}, "workDoneToken": "wd-%d" % asked}
+                if kind == 1:
+                    variant = rng.choice(["retrigger-stale", "retrigger-same", "invoked", "trigger-char"])
+                    params["context"] = {"retrigger-stale": {"triggerKind": 3, "isRetrigger": True, "activeSignatureHelp": _stale_help(a, rng)},
+                                         "retrigger-same": {"triggerKind": 2, "triggerCharacter": ",", "isRetrigger": True, "activeSignatureHelp": a},
+                                         "invoked": {"triggerKind": 1, "isRetrigger": False},
+                                         "trigger-char": {"triggerKind": 2, "triggerCharacter": "(", "isRetrigger": False}}[variant]
+                else:
+                    variant = "workDoneToken"
+                asked += 1
+                try:
+                    r = s.request(H.METHOD[kind], params, timeout=20.0)
+                except queue.Empty:
+                    r = None
+                got = r.get("result") if isinstance(r, dict) and "result" in r else {"<no result>": r}
+                if H.dumps(got) != H.dumps(a):
+                    bad.append(dict(kind="optional-members", property="C14", text=text, method=H.METHOD[kind], position=[l, col], variant=variant,
+                                    params=params, answer_to_the_plain_request=a, answer=got,
+                                    what="the same request with the optional members of its LSP type filled in (%s) is answered differently" % variant))
+                    break
+            s.close(uri)
+            if s.p.poll() is not None:
+                break
+    finally:
+        s.kill()
+    return bad, dict(documents=len(picks), requests=asked, deviations=len(bad))
+
+
 def run(ctx):
     rng = ctx.rng
     timings = {}
@@ -234,6 +300,11 @@ def run(ctx):
     lap('generate')
     res = observe(exe, docs)
     lap('server_valid')
+    cbad, ctx_cov = context_stage(ctx, exe, docs, res)
+    for v in sorted(cbad, key=lambda v: len(v["text"]))[:2]:
+        violations += 1
+        ctx.violation(v)
+    ctx.cov["optional_request_members"] = ctx_cov
     encs = H.judge_batch(judge, docs) if judge else None
     pre_false = [("valid", i) for i, x in enumerate(H.judge_batch.last_pre) if x == 0] if judge else []
     lap('judge_valid')
@@ -460,6 +531,22 @@ EXPLANATION = (
 
 def replay(ctx, path):
     r = json.load(open(path))
+    if r.get("kind") == "optional-members":
+        import lspclient
+        exe, _ = common.build_server()
+        s = lspclient.Server(exe)
+        try:
+            s.initialize(diagnostics=False)
+            uri = r["params"]["textDocument"]["uri"]
+            s.open(uri, r["text"])
+            plain = {"textDocument": {"uri": uri}, "position": r["params"]["position"]}
+            a = s.request(r["method"], plain, timeout=20.0)
+            b = s.request(r["method"], r["params"], timeout=20.0)
+        finally:
+            s.kill()
+        print("plain:", H.dumps((a or {}).get("result")))
+        print("with optional members:", H.dumps((b or {}).get("result")))
+        return 0 if a and b and H.dumps(a.get("result")) == H.dumps(b.get("result")) else 1
     if "text" not in r or "request" not in r:
         print(json.dumps(r, indent=1)[:3000])
         return 1
